@@ -4,6 +4,8 @@
 //! interval-set targets (one JSON witness line / exit 1, `replay`), but with
 //! their own case descriptions; see README.md.
 
+use crate::codecs::CodecCase;
+use crate::dec::DecCase;
 use crate::docs::{SnapCase, SvCase};
 use crate::json::J;
 use crate::model::Failure;
@@ -13,7 +15,8 @@ use std::panic::{catch_unwind, AssertUnwindSafe};
 use std::sync::atomic::{AtomicBool, AtomicUsize, Ordering};
 use std::time::Instant;
 
-pub const TARGETS: &str = "awareness | syncmsg | proto_all | snapshot | svsync | snap_all";
+pub const TARGETS: &str =
+    "awareness | syncmsg | proto_all | snapshot | svsync | snap_all | decoders | codecs | dec_all";
 
 /// The individual targets behind a CLI target name.
 pub fn targets_for(target: &str) -> Option<Vec<&'static str>> {
@@ -24,6 +27,9 @@ pub fn targets_for(target: &str) -> Option<Vec<&'static str>> {
         "snapshot" => Some(vec!["snapshot"]),
         "svsync" => Some(vec!["svsync"]),
         "snap_all" => Some(vec!["snapshot", "svsync"]),
+        "decoders" => Some(vec!["decoders"]),
+        "codecs" => Some(vec!["codecs"]),
+        "dec_all" => Some(vec!["decoders", "codecs"]),
         _ => None,
     }
 }
@@ -43,7 +49,7 @@ pub fn at(api: &str) {
     });
 }
 
-fn current_api() -> String {
+pub fn current_api() -> String {
     CURRENT_API.with(|c| c.borrow().clone())
 }
 
@@ -62,6 +68,8 @@ pub enum XCase {
     Msg(MsgCase),
     Snap(SnapCase),
     Sv(SvCase),
+    Dec(DecCase),
+    Codec(CodecCase),
 }
 
 /// What running a case yields when nothing disagrees: `false` if the case
@@ -76,6 +84,8 @@ impl XCase {
             XCase::Msg(_) => "syncmsg",
             XCase::Snap(_) => "snapshot",
             XCase::Sv(_) => "svsync",
+            XCase::Dec(_) => "decoders",
+            XCase::Codec(_) => "codecs",
         }
     }
 
@@ -86,6 +96,8 @@ impl XCase {
             XCase::Msg(c) => c.describe(),
             XCase::Snap(c) => c.describe(),
             XCase::Sv(c) => c.describe(),
+            XCase::Dec(c) => c.describe(),
+            XCase::Codec(c) => c.describe(),
         }
     }
 
@@ -103,6 +115,8 @@ impl XCase {
             "syncmsg" => Ok(XCase::Msg(MsgCase::from_json(variant, op)?)),
             "snapshot" => Ok(XCase::Snap(SnapCase::from_json(op)?)),
             "svsync" => Ok(XCase::Sv(SvCase::from_json(op)?)),
+            "decoders" => Ok(XCase::Dec(DecCase::from_json(variant, op)?)),
+            "codecs" => Ok(XCase::Codec(CodecCase::from_json(variant, op)?)),
             other => Err(format!("unknown target {:?}", other)),
         }
     }
@@ -113,6 +127,8 @@ impl XCase {
             XCase::Msg(c) => c.run().map(|_| true),
             XCase::Snap(c) => c.run().map(|_| true),
             XCase::Sv(c) => c.run(),
+            XCase::Dec(c) => c.run().map(|_| true),
+            XCase::Codec(c) => c.run().map(|_| true),
         }
     }
 
@@ -124,6 +140,8 @@ impl XCase {
             XCase::Msg(c) => c.actual_json(),
             XCase::Snap(c) => c.actual_json(),
             XCase::Sv(c) => c.actual_json(),
+            XCase::Dec(c) => c.actual_json(),
+            XCase::Codec(c) => c.actual_json(),
         }
     }
 }
@@ -295,6 +313,8 @@ pub fn cmd_search(target: &str, parts: &[&'static str], jobs: usize, deadline: O
             "syncmsg" => crate::proto::search_syncmsg(&mut r),
             "snapshot" => crate::docs::search_snapshot(&mut r),
             "svsync" => crate::docs::search_svsync(&mut r),
+            "decoders" => crate::dec::search_decoders(&mut r),
+            "codecs" => crate::codecs::search_codecs(&mut r),
             _ => Ok(()),
         };
         per_target.push((*part, J::Num((r.cases - before) as i64)));
@@ -322,6 +342,7 @@ pub fn cmd_search(target: &str, parts: &[&'static str], jobs: usize, deadline: O
         // --max-seconds elapsed before the enumeration was complete
         out.push(("truncated", J::Bool(true)));
     }
+    out.extend(crate::dec::summary_fields());
     println!("{}", J::obj(out));
     0
 }
@@ -330,7 +351,7 @@ pub fn cmd_search(target: &str, parts: &[&'static str], jobs: usize, deadline: O
 pub fn owns(j: &J) -> bool {
     matches!(
         j.get("target").and_then(|t| t.as_str()),
-        Some("awareness") | Some("syncmsg") | Some("snapshot") | Some("svsync")
+        Some("awareness") | Some("syncmsg") | Some("snapshot") | Some("svsync") | Some("decoders") | Some("codecs")
     )
 }
 
